@@ -438,6 +438,9 @@ class Simulator(EventProducer, SimulatorInterface, Generic[TIME]):
                and not self.__worker.is_finalized()
                and int(time.time() * 1000) - msec < 1000):
             sleep(0.001)
+        # the replication may have ended by itself while stop() was in progress
+        if self._replication_state == ReplicationState.ENDED:
+            self._run_state = RunState.ENDED
 
     def stop(self):
         """Stops the simulator, and fire a STOP_EVENT that the simulator 
